@@ -63,6 +63,9 @@ META = {
                 'SQLite executes the logged INSERT/UPDATE/DELETE statements as written'],
     'modelled': ['validation is abstracted to {int, None, rejected value} on IntCol columns',
                  'classes without joins/dependents (destroySelf cascade paths belong to C12/C06)',
+                 'listener lifetime: a listener registered with weak=True is kept alive by the program, one registered with '
+                 'weak=False by the registration alone (30% of the generated listeners, plain classes and chain levels; the harness '
+                 'drops its own reference); the model knows live listeners only',
                  'listeners that raise are outside the model; the clean-up of the thread-local postponed list when a '
                  'create-finished listener or callback raises is checked by a directed oracle scenario only'],
     'assumptions': ['operations address objects created in the same history (handles); listeners are of the four '
@@ -171,9 +174,10 @@ def norm_case(case):
         return {'kind': 'P', 'lazy': bool(case['lazy']), 'cv': bool(case.get('cv', True)),
                 'listeners': [(s, tuple(a)) for s, a in case['listeners']],
                 'blisteners': [(s, tuple(a)) for s, a in case.get('blisteners', [])],
+                'strong': list(case.get('strong') or []),
                 'ops': [tuple(tuple(map(tuple, x)) if isinstance(x, list) else x for x in op) for op in case['ops']]}
     return {'kind': 'H', 'levels': [[(s, tuple(a), bool(e)) for s, a, e in lv] for lv in case['levels']],
-            'creates': list(case['creates'])}
+            'creates': list(case['creates']), 'strong': [tuple(x) for x in (case.get('strong') or [])]}
 
 
 SPAWN_CB = 1000      # callbacks numbered >= 1000 create a row of class B when they run
@@ -329,10 +333,17 @@ def run_plain(case):
         f = make_listener(sink, idx, sig, act, prefix='b:')
         keep.append(f)
         events.listen(f, bcls, e['sigmap'][sig])
+    strong = set(case.get('strong') or [])
     for idx, (sig, act) in enumerate(case['listeners']):
         f = make_listener(sink, idx, sig, act, spawn=bcls)
-        keep.append(f)
-        events.listen(f, cls, e['sigmap'][sig])
+        if idx in strong:
+            # registered with weak=False and referenced by nobody else (the closure-at-the-call-site style that
+            # weak=False exists for): the registration itself must keep the listener alive
+            events.listen(f, cls, e['sigmap'][sig], weak=False)
+        else:
+            keep.append(f)
+            events.listen(f, cls, e['sigmap'][sig])
+        f = None
     bysink = []
     for sig in SIGS:
         f = make_listener(bysink, 0, sig, ('o',))
@@ -596,6 +607,7 @@ def run_chain(case):
         return '%d.%d' % (lv, eff[lv].index(idx))
 
     depth = len(case['levels'])
+    cstrong = set(tuple(x) for x in (case.get('strong') or []))
     # a plain class B whose rows are created by `x` listeners of the chain classes ("audit row" pattern);
     # the chain model ignores B (its entries are checked by the oracle and filtered from the comparison)
     bcls = make_class(False)
@@ -631,11 +643,14 @@ def run_chain(case):
         eff.append(inherited + [(lv, i) for i in range(len(case['levels'][lv]))])
         for i, (s, a, early) in enumerate(case['levels'][lv]):
             if early:
-                events.listen(recs[lv][i], cls, e['sigmap'][s])
+                events.listen(recs[lv][i], cls, e['sigmap'][s], weak=((lv, i) not in cstrong))
     for lv in range(depth):
         for i, (s, a, early) in enumerate(case['levels'][lv]):
             if not early:
-                events.listen(recs[lv][i], classes[lv], e['sigmap'][s])
+                events.listen(recs[lv][i], classes[lv], e['sigmap'][s], weak=((lv, i) not in cstrong))
+    # listeners registered with weak=False are referenced by nobody but the dispatcher from here on
+    for lv, i in cstrong:
+        recs[lv][i] = None
     for cls in classes:
         cls.createTable()
     tables = dict((cls.sqlmeta.table, lv) for lv, cls in enumerate(classes))
@@ -788,8 +803,10 @@ def gen_plain(rng, maxops):
         else:
             ops.append(('L',))
     # sqlmeta.cacheValues = False (eager and lazy): nothing kept on the instance, the events must be the same
+    # some listeners are registered with weak=False and kept alive by that registration alone
+    strong = [i for i in range(len(listeners)) if rng.random() < 0.3]
     return {'kind': 'P', 'lazy': lazy, 'cv': rng.random() >= 0.3, 'listeners': listeners, 'ops': ops,
-            'blisteners': blisteners}
+            'blisteners': blisteners, 'strong': strong}
 
 
 def gen_chain(rng):
@@ -805,7 +822,8 @@ def gen_chain(rng):
         own.sort(key=lambda x: not x[2])      # connections made before the subclass exists come first
         levels.append(own)
     creates = [rng.randint(0, 2) for _ in range(rng.randint(1, 5))]
-    return {'kind': 'H', 'levels': levels, 'creates': creates}
+    strong = [(lv, i) for lv in range(3) for i in range(len(levels[lv])) if rng.random() < 0.3]
+    return {'kind': 'H', 'levels': levels, 'creates': creates, 'strong': strong}
 
 
 def fmt_chain(out):
